@@ -28,7 +28,7 @@ def eval_pred(e: ast.expr, sign: t.Callable[[ast.expr, ast.expr], t.Optional[int
         left = e.left
         res = True
         for op, right in zip(e.ops, e.comparators):
-            s = sign(left, right)
+            s = _lex_sign(left, right, sign)
             if s is None:
                 raise NotOrderPredicate(unparse(e))
             ok = {
@@ -49,6 +49,19 @@ def eval_pred(e: ast.expr, sign: t.Callable[[ast.expr, ast.expr], t.Optional[int
         if v is not None:
             return v
     raise NotOrderPredicate(unparse(e))
+
+
+def _lex_sign(a: ast.expr, b: ast.expr, sign: t.Callable[[ast.expr, ast.expr], t.Optional[int]]) -> t.Optional[int]:
+    """Sign of a - b; tuples (and lists) of equal length compare lexicographically, as in Python."""
+    if isinstance(a, (ast.Tuple, ast.List)) and isinstance(b, (ast.Tuple, ast.List)) and len(a.elts) == len(b.elts) and type(a) is type(b):
+        for x, y in zip(a.elts, b.elts):
+            s = _lex_sign(x, y, sign)
+            if s is None:
+                return None
+            if s != 0:
+                return s
+        return 0
+    return sign(a, b)
 
 
 def pair_sign(fields_a: t.Dict[str, str], fields_b: t.Dict[str, str], vec: t.Dict[str, int]) -> t.Callable[[ast.expr, ast.expr], t.Optional[int]]:
